@@ -81,6 +81,8 @@ class Dict(AbstractSpace[OrderedDict[str, Any], None]):
         parts = [
             space.flatten_sample(sample[key]) for key, space in self.spaces.items()
         ]
+        if not parts:
+            return jnp.zeros((0,), dtype=float)
         return jnp.concatenate(parts)
 
     @property
